@@ -27,6 +27,8 @@ mod c15;
 mod c16;
 mod c17;
 mod child;
+mod fuzzglue;
+include!("fuzzbody.rs");
 mod gen;
 mod pq;
 
@@ -52,6 +54,13 @@ fn main() {
         return;
     }
     engine::install_quiet_panic_hook();
+    if args[1] == "fuzz-seeds" && args.len() >= 4 {
+        let seed: u64 = std::env::var("VERIF_SEED").ok().and_then(|s| s.trim().parse::<i64>().ok()).map(|x| x as u64).unwrap_or(0);
+        std::process::exit(fuzzglue::write_seeds(&args[2], std::path::Path::new(&args[3]), seed));
+    }
+    if args[1] == "fuzz-triage" && args.len() >= 3 {
+        std::process::exit(fuzzglue::triage(&args[2], &args[3..]));
+    }
     let verif_dir = PathBuf::from(std::env::var("VERIF_DIR").unwrap_or_else(|_| "/verif".into()));
     let seed: u64 = std::env::var("VERIF_SEED").ok().and_then(|s| s.trim().parse::<i64>().ok()).map(|x| x as u64).unwrap_or(0);
     let workers: usize = std::env::var("VERIF_WORKERS").ok().and_then(|s| s.parse().ok()).unwrap_or(16);
@@ -67,6 +76,13 @@ fn main() {
         _ => usage(),
     };
     let prop: &'static str = Box::leak(args[1].clone().into_boxed_str());
+    if let Some(path) = &replay {
+        // a raw libFuzzer artifact rather than a JSON case?
+        let is_json = std::fs::read(path).ok().and_then(|b| serde_json::from_slice::<serde_json::Value>(&b).ok()).map(|v| v.get("case").is_some()).unwrap_or(false);
+        if !is_json {
+            std::process::exit(fuzzglue::replay_raw(prop, path));
+        }
+    }
     let env = Env { prop, tier, seed, workers, known: engine::load_known(&verif_dir), verif_dir, strict_replay: replay.is_some() };
     let code = match prop {
         "C01" => c01::run(&env, replay.as_deref()),
